@@ -331,6 +331,7 @@ class Model:
                     by_reg.setdefault(r, {}).setdefault(val.get_id(), [val, []])[1].append(c)
         cons.append(pc1 == z3.If(sel, npc, pc))
         same = [npc == pc]
+        livemask = {}
         for r, curv in R.items():
             nxt = curv
             for (val, conds) in by_reg.get(r, {}).values():
@@ -338,13 +339,14 @@ class Model:
             cons.append(R1[r] == (z3.If(sel, nxt, curv) if r in by_reg else curv))
             if r in by_reg:
                 lm = z3.Or([pc == pid for pid, L in t.live.items() if any(t.reg_of.get(n) == r for n in L)] or [z3.BoolVal(False)])
+                livemask[r] = lm
                 same.append(z3.Or(z3.Not(lm), nxt == curv))
         mem_same = z3.And(z3.Not(z3.And(is_word, writes, valid, neww != word)), z3.Not(is_range))
         # a step that changes nothing at all: one iteration of a spin-wait
         stutter = z3.And(sel, z3.And(same), mem_same, z3.Not(spur), oob1 == F["oob"], cor1 == F["corrupt"], z3.Not(is_unm))
         if self.hb:
             cons += self._hb_thread(ti, t, sel, at, word_pts, unm_pts, widx, ok, rl, rh, cl, ch, is_word, is_range, is_chk)
-        return {"rel": z3.And(cons), "pc": pc, "pc1": pc1, "R": R, "R1": R1, "F": F, "F1": F1, "stutter": stutter, "spin_addr": A,
+        return {"rel": z3.And(cons), "pc": pc, "pc1": pc1, "R": R, "R1": R1, "F": F, "F1": F1, "stutter": stutter, "livemask": livemask, "spin_addr": A,
                 "spin_word": word}
 
     # ---------------------------------------------------------------- happens-before (C12)
@@ -453,6 +455,23 @@ class Model:
 
     def stutter(self, k):
         return self.at_step(k, self.tmpl[self.plan[k]]["stutter"])
+
+    def cycle(self, k, p):
+        """steps k..k+p-1 are all taken by thread plan[k] and bring it back to the state it was in: a wait loop of
+        period p (p = 1 is a plain spin on one location). None if the plan has no such window."""
+        ti = self.plan[k]
+        if k + p > self.K or any(self.plan[j] != ti or self.chunk_of[j] != self.chunk_of[k] for j in range(k, k + p)):
+            return None
+        tm = self.tmpl[ti]
+        c = [self.run[j] for j in range(k, k + p)]
+        c += [self.W[k][i] == self.W[k + p][i] for i in range(self.NW)]
+        c.append(self.pc[k][ti] == self.pc[k + p][ti])
+        for r, lm in tm["livemask"].items():
+            live = z3.substitute(lm, (tm["pc"], self.pc[k][ti]))
+            c.append(z3.Or(z3.Not(live), self.R[k][ti][r] == self.R[k + p][ti][r]))
+        for g in ("corrupt", "oob", "spur", "unmounts"):
+            c.append(self.F[k][ti][g] == self.F[k + p][ti][g])
+        return z3.And(c)
 
     def own(self, k, ti, j):
         t = self.threads[ti]
